@@ -5,6 +5,7 @@ import CruxVerif.Lemmas.RtTask
 import CruxVerif.Lemmas.Resolve
 import CruxVerif.Model.Hosts
 import CruxVerif.Lemmas.HostLtRun
+import CruxVerif.Lemmas.GCoreHosts
 namespace Props.C06
 open M.Rt
 
@@ -55,6 +56,24 @@ theorem dropped_request_unresolvable (r : Resolve) (v : Val) (w : World) :
 theorem hosting_ordered_over_runs (c : Cmd) (hc : cmdHF c = true) (canon : Bool) (acts : List M.Hosts.Action)
     (os : List M.Hosts.Obs) (d : M.Hosts.Direct) (h : M.Hosts.runDirect c canon acts = some (os, d)) : HL d.w :=
   M.Hosts.runDirect_hl c hc canon acts os d h
+
+/-- The same under the CORE host (Lemmas/XFrame, CoreFrame, GCore, GCoreHosts): for every app whose commands have host-free
+    task bodies (any nesting of combinators) and whose legacy capability tasks are host-free, in every world a Core reaches
+    after ANY history of events, resolutions, drops, aborts and probes, every stored task hosts only commands below its
+    own command — so `run_is_contained` / `drop_is_contained` / `poll_keeps_own_slab` apply to every state of a Core. -/
+theorem hosting_ordered_under_core (prog : M.Hosts.Prog) (hp : progHF prog) (canon : Bool) (acts : List M.Hosts.Action)
+    (os : List M.Hosts.Obs) (h : M.Hosts.CoreHost) (hr : M.Hosts.runCore prog canon acts = some (os, h)) : HL h.k.w :=
+  (M.Hosts.runCore_c prog hp canon acts os h hr).hl
+
+/-- nothing a command does — polls at any nesting depth, run_task, run_until_settled, poll_next, aborts, drops — writes the
+    Core's own queues (executor spawn queue, effect channel, event channel): cancellation inside a command cannot disturb
+    what the Core has queued -/
+theorem command_never_writes_core_queues (wk : Waker) (c : Nat) (w : World) (r : NextRes) (w' : World)
+    (h : pollNext wk c w = some (r, w')) :
+    w'.execSpawn = w.execSpawn ∧ w'.coreEffects = w.coreEffects ∧ w'.coreEvents = w.coreEvents := by
+  have := pollNext_x wk c w r w' h
+  simp only [X, Prod.mk.injEq] at this
+  exact this
 
 /-- … and in such a world, RUNNING command `c` — settling it, polling its tasks, whatever they host, run, cancel, abort or
     drop recursively — leaves the task slab and the spawn queue of EVERY command with a larger index exactly as they were:
